@@ -69,9 +69,13 @@ def gen_regions(rnd, n=None, grid=False):
             if rnd.random() < 0.3:   # unordered corners
                 r = ["rect", r[3], r[2], r[1], r[4], rid] if rnd.random() < 0.5 else ["rect", r[3], r[4], r[1], r[2], rid]
             regs.append(r)
-        elif t < 0.85:
+        elif t < 0.82:
             regs.append(["circ", round(rnd.uniform(8, 50), 1), round(rnd.uniform(8, 50), 1),
                          round(rnd.uniform(1.5, 10), 1), rid])
+        elif t < 0.85:
+            # a negative radius is accepted by the API and denotes an empty region
+            regs.append(["circ", round(rnd.uniform(8, 50), 1), round(rnd.uniform(8, 50), 1),
+                         -round(rnd.uniform(1.5, 10), 1), rid])
         elif t < 0.9 and regs:
             # nested / overlapping with a previous one
             p = regs[rnd.randrange(len(regs))]
